@@ -50,6 +50,7 @@ type Parser struct {
 	s         string
 	noLazy    bool
 	loadOnce  bool
+	depth     int
 	skipValue bool
 	dbuf      *byte
 }
@@ -332,7 +333,13 @@ func (self *Parser) Parse() (Node, types.ParsingError) {
 			if self.loadOnce {
 				self.noLazy = false
 			}
-			return self.decodeArray(new(linkedNodes))
+			if self.depth >= types.MAX_RECURSE {
+				return Node{}, types.ERR_RECURSE_EXCEED_MAX
+			}
+			self.depth++
+			ret, err := self.decodeArray(new(linkedNodes))
+			self.depth--
+			return ret, err
 		}
 		// NOTICE: loadOnce always keep raw json for object or array
 		if self.loadOnce {
@@ -355,7 +362,13 @@ func (self *Parser) Parse() (Node, types.ParsingError) {
 			if self.loadOnce {
 				self.noLazy = false
 			}
-			return self.decodeObject(new(linkedPairs))
+			if self.depth >= types.MAX_RECURSE {
+				return Node{}, types.ERR_RECURSE_EXCEED_MAX
+			}
+			self.depth++
+			ret, err := self.decodeObject(new(linkedPairs))
+			self.depth--
+			return ret, err
 		}
 		if self.loadOnce {
 			self.p = s
